@@ -347,7 +347,15 @@ pub fn build(
                 // Prefix with the base's name until the name is free: the prefixed name
                 // can itself be taken already (by a function the base renamed the same way).
                 while associated_functions_used_names.contains(&function.name) {
-                    function.name = format!("{}_{}", base_name, function.name);
+                    // (the parts of a raw identifier lose their `r#`: `b_r#type` is no identifier)
+                    function.name = format!(
+                        "{}_{}",
+                        base_name.strip_prefix("r#").unwrap_or(&base_name),
+                        function
+                            .name
+                            .strip_prefix("r#")
+                            .unwrap_or(&function.name)
+                    );
                 }
                 // A function without a receiver cannot be called through the base field
                 // (there is no `self` to reach it from), and does not depend on the object:
